@@ -6,6 +6,7 @@ ln -sfn /repo subject
 export CARGO_TARGET_DIR="$PWD/target" RUSTFLAGS="--cfg microscpi_verif -A mismatched_lifetime_syntaxes" CARGO_NET_OFFLINE=true
 cd harness
 cargo build --release --offline -q -p mc
+cargo build --release --offline -q -p mc-std
 (cd ../harness-nostd && CARGO_TARGET_DIR="$OLDPWD/../target-nostd" RUSTFLAGS="-A mismatched_lifetime_syntaxes" cargo build --release --offline -q)
 cd ..
 ./check C01 --build-only
